@@ -51,8 +51,8 @@ def contract(roles):
         attrs={"st_size": {"kind": "Int"}},
         with_enter_may_raise=False,
         loops={
-            0: {"invariants": [("no-earlier-cache-is-complete", "forall(lambda j: not complete(readonly_caches[j], checksum), 0, _k)")]},
-            1: {"invariants": [("file-not-loadable-so-far", "_k == 0 or not loadable(open(result_file, 'rb'))")]},
+            "readonly_caches": {"invariants": [("no-earlier-cache-is-complete", "forall(lambda j: not complete(readonly_caches[j], checksum), 0, _k)")]},
+            "range(retries)": {"invariants": [("file-not-loadable-so-far", "_k == 0 or not loadable(open(result_file, 'rb'))")]},
         },
         ensures=[
             (
@@ -68,6 +68,7 @@ def contract(roles):
             ),
         ],
         allow_raise=False,
+        terminates_role=roles.get("terminates", ""),
         trusted=[
             "file system is not modified by others during one load_result call (exists/stat/open are pure observers)",
             "cloudpickle.load returns the stored object for a completely written file and raises UnpicklingError or EOFError for an incomplete one",
